@@ -64,7 +64,7 @@ def run(prog, rep, tier='quick'):
     K = lambda: C.symint('K', 1, 'k')
     for cplx in (False, True):
         for method in ('unity', 'eigen', 'adapt'):
-            for given in (False, True):
+            for given in (False, True, 'both'):
                 kw = {'NFFT': C.nfft('even'), 'method': Const(method)}
                 x = C.data(cplx, phase=False)
                 if given:
@@ -72,11 +72,14 @@ def run(prog, rep, tier='quick'):
                     v = C.deg0((C.N_SYM, K().a), False, 'V')
                     kw.update(e=e, v=v)
                     tap_l, ev_l = 'V', 'E'
+                    if given == 'both':
+                        # NW passed along with precomputed tapers (the usual way to document them): the supplied tapers are used
+                        kw.update(NW=C.deg0(label='NW'), k=K())
                 else:
                     kw.update(NW=C.deg0(label='NW'), k=K())
                     tap_l, ev_l = 'tapers', 'eigenvalues'
                 itp = C.new_interp(prog)
-                if not given:
+                if given is not True:
                     def dp(itp_, a, k_, n_, s_):
                         r = C.dpss_summary(itp_, a, k_, n_, s_)
                         r.items[0].taint = r.items[0].taint | frozenset(['tapers'])
@@ -84,7 +87,7 @@ def run(prog, rep, tier='quick'):
                         return r
                     itp.summaries['mtm.dpss'] = dp
                 out, itp = C.run_function(prog, 'mtm', 'pmtm', [x], kw, itp=itp)
-                ctx = '%s,%s,%s' % (method, 'complex' if cplx else 'real', 'e/v given' if given else 'computed')
+                ctx = '%s,%s,%s' % (method, 'complex' if cplx else 'real', {False: 'computed', True: 'e/v given', 'both': 'e/v and NW given'}[given])
                 n_f += 1
                 if blocked(rep, 'eigenspectra', f.qname, ctx, itp):
                     continue
@@ -266,6 +269,6 @@ def run(prog, rep, tier='quick'):
                 rep.violation('ffi', d.qname, 'multitap call', '; '.join(bad), dw)
             else:
                 rep.proved('ffi', d.qname, 'multitap call', 'types, order, buffer sizes and layout match the C prototype', dw)
-    rep.floor('pmtm contexts', n_f, 12)
+    rep.floor('pmtm contexts', n_f, 18)
     rep.floor('convergence tests examined', n_conv, 4)
     rep.floor('class contexts', n_c, 12)
